@@ -63,6 +63,8 @@ type ArchiveDecoder struct {
 	d    FormatDecoder
 	dir  string
 	last interface{}
+	// root is set once the first entry (the only one without a filename) was decoded
+	root bool
 }
 
 // NewArchiveDecoder initializes a decoder for a catar archive.
@@ -160,6 +162,13 @@ loop:
 			return nil, fmt.Errorf("unsupported element %s in archive", reflect.TypeOf(d))
 		}
 	}
+
+	// Only the first entry of an archive, its root, comes without a filename. Any
+	// later one would take the name of the directory it is in and replace it.
+	if name == "" && a.root {
+		return nil, InvalidFormat{"entry without filename"}
+	}
+	a.root = true
 
 	// If it doesn't have a payload or is a device/symlink, it must be a directory
 	if payload == nil && device == nil && symlink == nil {
